@@ -91,11 +91,11 @@ class StructModel:
         if type(ln) is SymInt:
             if not ctx().branch(ln.e == n):
                 raise _struct.error(f"unpack requires a buffer of {n} bytes")
-            raise Unsupported("struct.unpack over opaque payload bytes")
+            data = SymBytes(data.expanded())
         if ln != n:
             raise _struct.error(f"unpack requires a buffer of {n} bytes")
         if data.has_blob():
-            raise Unsupported("struct.unpack over opaque payload bytes")
+            data = SymBytes(data.expanded())
         code = fmt[1]
         if code == "d":
             v = S.byte_term(data.items[0])
